@@ -1,5 +1,5 @@
 (* C15 — retain removes exactly the rejected entries, visiting each once in LRU order. *)
-Require Import LruV.A.SpecA.
+Require Import LruV.A.SpecA LruV.A.InvA LruV.B.StepB LruV.B.RefineB LruV.B.ReachB.
 
 Theorem C15_retain : forall E VS, 0 < E -> VS <= E -> forall s keep o s' out evs,
   Inv E s -> stepA E VS fixed s (Retain keep) o = Some (s', out, evs) ->
@@ -26,4 +26,25 @@ Example C15_example :
      map (fun e => kid (ek e)) (ents s') = [2; 4] /\ cur s' = 150 /\ map (fun x => kid (fst x)) (e_visits evs) = [1; 2; 3; 4].
 Proof. cbv zeta. eexists _, _. split; [vm_compute; reflexivity|]. repeat split; reflexivity. Qed.
 
+(* at pointer level: retain as the code runs it (following the prev links from the least-recently-used node, unlinking and
+   freeing every rejected node on the way) visits the pair of every linked node once, oldest first, leaves exactly the nodes
+   whose pair the predicate accepted, in their order, lowers the counter by the recorded sizes of the others, drops exactly
+   their keys and values, and leaves the structure coherent *)
+Theorem C15_pointer_level : forall E VS, 0 < E -> VS <= E -> forall b keep oB b' out evs,
+  ReachB E VS b -> stepB E VS b (Retain keep) oB = Some (b', out, evs) ->
+  let l := ents (absB b) in
+  let kf := fun e => keep (ek e) (ev e) in
+  let gone := filter (fun e => negb (kf e)) l in
+  e_visits evs = map kv l /\ ents (absB b') = filter kf l /\
+  bcur b' = bcur b - sum_es gone /\ sum_es gone <= bcur b /\ bmax b' = bmax b /\
+  e_dropped evs = all_toks gone /\ e_evicted evs = [] /\ RIb b'.
+Proof.
+  intros E VS HE HV b keep oB b' out evs HR Hstep. cbv zeta.
+  destruct (reachB_sound E VS HE HV b HR) as [_ HRa]. pose proof (reach_inv E VS HE HV _ HRa) as HI.
+  destruct (reachB_step E VS HE HV b _ oB b' out evs HR Hstep) as (HA & HRI & _).
+  pose proof (C15_retain E VS HE HV _ keep _ _ out evs HI HA) as H. cbv zeta in H.
+  destruct H as (H1 & H2 & H3 & H4 & H5 & H6 & H7 & _). repeat (split; [assumption|]). exact HRI.
+Qed.
+
 Print Assumptions C15_retain.
+Print Assumptions C15_pointer_level.
